@@ -329,6 +329,12 @@ theorem CaptureTie_unconfigure (cfg : Cfg) (st : St) (impl : String)
 `warnings.catch_warnings()` (the model's `callBody` restores the filters; `buildOps` appends the unconfigure hooks). -/
 theorem CaptureTie_frame : frameFactsOk = true := by decide
 
+/-- `report.sections` — what the checks observe and C14 speaks about — is `task.report_sections` as `task_capture` filled it (the
+model's `St.secs`): all of it, for succeeding and failing tasks alike (no section is dropped or rewritten on the way into the
+report, e.g. whitespace-only ones). -/
+theorem CaptureTie_report_sections (failed : Bool) (secs : List Sec) : reportSectionsGen failed secs = some secs := by
+  cases failed <;> simp [reportSectionsGen, reportSections]
+
 /-! ### Non-vacuity: `Separate` holds for what `_get_multicapture` builds in a concrete process -/
 
 private def w0 : W := { os := { files := [[], [], []], fdt := [some 0, some 1, some 2] } }
